@@ -33,6 +33,12 @@ def main():
     env = dict(os.environ, PYTHONPATH=wt, PYTHONHASHSEED='0')
     res = {'property': prop, 'source': '%s/out/*%s*' % (mut, n)}
     try:
+        # some demos hard-code the path of the worktree they were written in: run a copy that points at OUR worktree
+        demo_src = open(demo).read().replace(os.path.abspath(mut), wt)
+        os.makedirs(os.path.join(wt, 'out'), exist_ok=True)     # same layout as the agents' <worktree>/out/demoN.py
+        demo_run = os.path.join(wt, 'out', '_seed_demo.py')
+        open(demo_run, 'w').write(demo_src)
+        demo_orig, demo = demo, demo_run
         rc0, o0 = sh('%s %s' % (PY, demo), cwd=wt, env=env, timeout=900)
         res['demo_on_head'] = rc0
         rc, o = sh('git apply %s' % patch, cwd=wt)
@@ -81,7 +87,7 @@ def main():
         d = os.path.join(ROOT, 'seeded', sid)
         os.makedirs(d, exist_ok=True)
         shutil.copy(patch, os.path.join(d, 'patch.diff'))
-        shutil.copy(demo, os.path.join(d, 'demo.py'))
+        shutil.copy(demo_orig, os.path.join(d, 'demo.py'))
         m = json.load(open(meta)) if os.path.exists(meta) else {}
         m.update({'property': prop, 'confirmed': res, 'caught_by': caught,
                   'what_was_run': 'harness/seed.py: demo on a clean worktree of /repo HEAD (pass) and with the patch (fail); pinned '
